@@ -10,13 +10,13 @@ PROPS = {
     "C07": dict(tier_a=["contracts.generator_fmt"], regtrans=True, scans=["c07"], tier_b="bounded.c07"),
     "C08": dict(tier_a=["contracts.core_tree"], tier_b="bounded.c08"),
     "C09": dict(tier_a=["contracts.copy_frames"], scans=["c09"], tier_b="bounded.c09"),
-    "C10": dict(tier_a=["contracts.identifiers"], tier_b="bounded.c10"),
+    "C10": dict(tier_a=["contracts.identifiers", "contracts.scope_branch"], tier_b="bounded.c10"),
     "C11": dict(tier_a=["contracts.env_kernels", "contracts.executor_kernels"], tier_b="bounded.c11"),
     "C12": dict(tier_a=["contracts.serde_load"], tier_b="bounded.c12"),
     "C13": dict(tier_a=["contracts.tokenizer", "contracts.parser_cursor", "contracts.errors_funnel"], tier_b="bounded.c13"),
     "C14": dict(tier_a=["contracts.errors_funnel", "contracts.generator_fmt"], scans=["c14"], tier_b="bounded.c14"),
     "C15": dict(tier_a=["contracts.generator_fmt", "contracts.schema_cache"], scans=["c15"], tier_b="bounded.c15"),
-    "C17": dict(tier_a=[], tier_b="bounded.c17"),
+    "C17": dict(tier_a=["contracts.scope_branch"], tier_b="bounded.c17"),
     "C18": dict(tier_a=["contracts.schema_cache"], tier_b="bounded.c18"),
     "C20": dict(tier_a=["contracts.diff_acct"], tier_b="bounded.c20"),
 }
